@@ -1,5 +1,6 @@
 import NeumannModel.Raft.Lemmas
 import NeumannModel.Raft.Safety
+import NeumannModel.Raft.LogMatch
 /-
   C01 — property theorems.
   Part 1: handler-level facts (for every node state and message).
@@ -124,14 +125,35 @@ theorem leader_has_quorum (c : Config) (steps : List Step) (i : Nat) (a : Node)
   obtain ⟨h1, h2, h3⟩ := (inv_run c _ steps (inv_init c)).votesOk i a ha (by rw [hl]; intro h; cases h)
   exact ⟨h3 hl, h2, h1⟩
 
-/-! ## Part 3 — full statements not yet proved (explored by the monitors of `corr_raft` on the
+/-! ## Part 3 — Log Matching (proved), and the full statements not yet proved (explored by the monitors of `corr_raft` on the
     real cluster; they are NOT claimed as theorems) -/
 
-/-- two logs that agree on the term of a position agree on every earlier position -/
-def LogMatching (s : Sys) : Prop :=
-  ∀ (i j : Nat) (a b : Node), s.nodes[i]? = some a → s.nodes[j]? = some b →
-    ∀ k, k < a.log.length → k < b.log.length → (a.log[k]?).map (·.term) = (b.log[k]?).map (·.term) →
-      a.log.take (k + 1) = b.log.take (k + 1)
+/-- **Log Matching**: in every reachable state, two logs that agree on the term of a position
+    agree on every position up to it (proof: `Raft/LogMatch.lean`, invariant `LMInv` — every
+    entry of term `t` in any log or AppendEntries sits on a prefix of the log of the one leader
+    of term `t`; `append_leader_entries` preserves that). -/
+theorem log_matching (c : Config) (steps : List Step) (i j : Nat) (a b : Node)
+    (ha : (run c (initSys c) steps).nodes[i]? = some a)
+    (hb : (run c (initSys c) steps).nodes[j]? = some b)
+    (k : Nat) (ea eb : Entry) (h1 : a.log[k]? = some ea) (h2 : b.log[k]? = some eb)
+    (ht : ea.term = eb.term) : a.log.take (k + 1) = b.log.take (k + 1) :=
+  log_matching_of_inv c _ (lm_run c _ steps (inv_init c) (lm_init c)) i j a b ha hb k ea eb h1 h2 ht
+
+/-- at most one node EVER wins an election in a term (historical form of Election Safety) -/
+theorem one_election_per_term (c : Config) (steps : List Step) (t i j : Nat) (vs ws : List Nat)
+    (h1 : (t, i, vs) ∈ (run c (initSys c) steps).elected)
+    (h2 : (t, j, ws) ∈ (run c (initSys c) steps).elected) : i = j :=
+  elected_unique c _ (inv_run c _ steps (inv_init c)) (lm_run c _ steps (inv_init c) (lm_init c))
+    t i j vs ws h1 h2
+
+/-- a leader's log only ever grows by its own proposals: it always equals the canonical log of
+    its term, and every AppendEntries in the network is a segment of that canonical log -/
+theorem ae_is_leader_log_segment (c : Config) (steps : List Step) (src dst T l pi pt : Nat)
+    (es : List Entry) (lc : Nat)
+    (h : (src, dst, Msg.appendEntries T l pi pt es lc) ∈ (run c (initSys c) steps).net) :
+    ((run c (initSys c) steps).canon T).take pi ++ es
+      = ((run c (initSys c) steps).canon T).take (pi + es.length) :=
+  ((lm_run c _ steps (inv_init c) (lm_init c)).aeOk src dst T l pi pt es lc h).2.2.2.1
 
 /-- no two nodes ever report different entries committed at one position -/
 def StateMachineSafety (s : Sys) : Prop :=
